@@ -28,6 +28,11 @@ def demo_cmds(demo_diff):
             cmds.append(f'cargo test -p {mi.group(1)} --offline --test {mi.group(2)}')
         elif mu:
             cmds.append(f'cargo test -p {mu.group(1)} --offline --lib {mu.group(2)}')
+        else:
+            mg = re.match(r'^([\w-]+)/tests/.*/([\w]+)\.rs$', path)
+            if mg and mg.group(2) != 'mod':
+                # a module of the in-crate test tree (tests/features/..): filter by the module name
+                cmds.append(f'cargo test -p {mg.group(1)} --offline {mg.group(2)}')
     return cmds
 
 
